@@ -2,7 +2,7 @@
 import random, json, os, tempfile, shutil, copy, hashlib, math
 from common import *
 
-RULE = ("fixed histories (entry written under a higher threshold read under a lower one and vice versa for MCS results with a confidence in between; atom-map removal switched off/on; the same reactions as bare strings and as rows carrying further columns named like output columns; each also with ONE Balancer object re-used and its public attributes set between runs) and random histories of 3-6 rebalancing runs over ONE shared cache directory (temp dir outside /repo and /verif): inputs drawn with "
+RULE = ("fixed histories (entry written under a higher threshold read under a lower one and vice versa for MCS results with a confidence in between; atom-map removal switched off/on; the same reactions as bare strings and as rows carrying further columns named like output columns; the same rows in another order; the same rows with an extended `columns` list; each also with ONE Balancer object re-used and its public attributes set between runs) and random histories of 3-6 rebalancing runs over ONE shared cache directory (temp dir outside /repo and /verif): inputs drawn with "
         "overlap from a pool of cheap reactions and two MCS-stage reactions, batch size in {None,1,2,3,5}, threshold in {0, 0.5, 0.9, 1}, "
         "list-of-str / list-of-dict with the default or a renamed reaction column; between runs an existing entry is replaced by what a "
         "killed write can leave (absent, empty, a truncated prefix -- quick: 40 offsets, thorough: EVERY prefix of one entry --, garbage, "
@@ -102,9 +102,17 @@ def one_run(cfg, inputs, cache_dir, reuse=None):
         b.remove_aam = cfg.get("aam", True)
         if reuse is not None and cache_dir is not None:
             reuse["obj"], reuse["col"] = b, col
+    # the public `columns` attribute (which keys of a row are returned) may be extended by the caller
+    if not hasattr(b, "_c12_default_columns"):
+        b._c12_default_columns = list(b.columns)
+    b.columns = list(b._c12_default_columns) + [c for c in cfg.get("cols", []) if c not in b._c12_default_columns]
     rows = b.rebalance(copy.deepcopy(data), output_dict=True, stats=st)
     # rename the reaction column back for comparison
-    return pub([{("reaction" if k == col else k): v for k, v in r.items()} for r in rows]), st, data
+    out = pub([{("reaction" if k == col else k): v for k, v in r.items()} for r in rows])
+    for o, r in zip(out, rows):
+        for c in cfg.get("cols", []):
+            o["col:" + c] = r.get(c, "<absent>")
+    return out, st, data
 
 
 def run(ctx):
@@ -135,6 +143,11 @@ def run(ctx):
     ann = dict(F(0), extra={"confidence": 0.5, "rules": ["from-file"], "issue": "old issue", "solved_by": "someone", "note": "n1"})
     ann2 = dict(F(0), extra={"note": "n2", "issue": "another"})
     fixed += [[(F(0), X), (ann, X), (F(0), X)], [(ann, X), (F(0), X), (ann2, X), (ann, X)]]
+    # the same rows in another order (an entry is a positional list of result rows), and the same rows with a longer `columns` list
+    X2, X3 = [X[2], X[0], X[3], X[1]], [X[1], X[2], X[3], X[0]]
+    wide = dict(ann2, cols=["note", "id"])
+    fixed += [[(F(0), X), (F(0), X2), (F(0), X3), (F(0), X)], [(F(0, bs=2), X), (F(0, bs=2), X2)],
+              [(ann2, X), (wide, X), (ann2, X)], [(wide, X), (ann2, X), (wide, X2)]]
     for fi, fh in enumerate(fixed + fixed):
         reuse = {} if fi >= len(fixed) else None
         tmp = tempfile.mkdtemp(prefix="synrbl_c12f_")
